@@ -13,6 +13,8 @@ From BPT Require Import Common.Base Common.AMap Rust.Tree Rust.Readers Rust.InvD
 Import ListNotations.
 Set Implicit Arguments.
 
+Ltac splits := repeat match goal with |- _ /\ _ => split end.
+
 (* ------------------------------------------------------------------ *)
 (* association-list facts *)
 Lemma m_insert_last : forall (m : pmap) k v,
@@ -73,11 +75,11 @@ Lemma wstore_rel : forall (ms : list (N * pstate)) (ams : list (N * (nat * pmap)
 Proof.
   intros ms ams n s c m F I Hc Hm.
   induction F as [|[a s0] [b [c0 m0]] ms ams R F IH]; cbn [wstore].
-  - constructor; [|constructor]. repeat split; auto.
+  - constructor; [|constructor]. unfold map_rel. cbn [fst snd]. auto.
   - destruct R as (E & I0 & Hc0 & Hm0). cbn [fst snd] in *. subst b.
     destruct (N.eqb a n).
-    + constructor; [|exact F]. repeat split; auto.
-    + constructor; [|exact IH]. repeat split; auto.
+    + constructor; [|exact F]. unfold map_rel. cbn [fst snd]. auto.
+    + constructor; [|exact IH]. unfold map_rel. cbn [fst snd]. auto.
 Qed.
 
 Lemma wr_ok : forall (A : Type) w (r : res (pstate * A)) s' a (f : A -> out),
@@ -129,7 +131,8 @@ Proof.
   - exists s. auto.
   - destruct (setitem_spec k v I) as (s1 & E & I1 & C1 & K1 & _).
     rewrite E. cbn [bind]. destruct (IH s1 I1) as (s2 & E2 & I2 & C2 & K2).
-    exists s2. rewrite C1 in C2. repeat split; auto. congruence.
+    exists s2. rewrite C1 in C2. split; [exact E2|]. split; [exact I2|]. split; [exact C2|].
+    rewrite K2. exact K1.
 Qed.
 
 Lemma copy_spec : forall s, PyInv s ->
@@ -141,7 +144,7 @@ Proof.
   rewrite m_items_all.
   destruct (update_spec (pcontents s) I0) as (s1 & E1 & I1 & C1 & K1).
   exists s1. rewrite C0 in C1. rewrite m_insert_all_sorted in C1 by (apply PyInv_sorted; exact I).
-  repeat split; auto. congruence.
+  splits; auto. congruence.
 Qed.
 
 Lemma pop_spec : forall s z args, PyInv s -> length args <= 1 ->
@@ -155,7 +158,7 @@ Proof.
   destruct (m_get (pcontents s) z) as [v|] eqn:G.
   - destruct (delitem_spec z I) as (s' & E & I' & C' & K' & _). rewrite G in E. cbn [is_some] in E.
     rewrite E. cbn [bind fst snd]. exists s'. auto.
-  - exists s. repeat split; auto. symmetry. apply m_remove_notin.
+  - exists s. splits; auto. symmetry. apply m_remove_notin.
     intros e He Hk. assert (Hs := PyInv_sorted I).
     assert (m_get (pcontents s) z <> None); [|congruence].
     clear G. revert Hs He. generalize (pcontents s). intros m. induction m as [|[k0 v0] m IHm]; intros Hs He; [destruct He|].
@@ -204,7 +207,8 @@ Theorem step_refines : forall w aw o, world_rel w aw ->
   world_rel (fst (step false w o)) (fst (spec_step aw o)).
 Proof.
   intros w aw o [Hcur F].
-  pose proof (wlookup_rel (cur w) F) as Lk. rewrite Hcur in Lk at 2.
+  pose proof (wlookup_rel (cur w) F) as Lk.
+  replace (wlookup (amaps aw) (cur w)) with (wlookup (amaps aw) (acur aw)) in Lk by (rewrite Hcur; reflexivity).
   assert (Hstore : forall n s c m, PyInv s -> tcap s = c -> pcontents s = m ->
             world_rel (mkW (wstore (maps w) n s) n) (mkAW (wstore (amaps aw) n (c, m)) n)).
   { intros n s c m I Hc Hm. split; [reflexivity|]. apply wstore_rel; auto. }
@@ -283,7 +287,8 @@ Proof.
   - (* OUse *)
     pose proof (wlookup_rel name F) as Ln.
     destruct (wlookup (maps w) name) as [s|]; destruct (wlookup (amaps aw) name) as [[c m]|];
-      try contradiction; cbn [fst snd]; (split; [reflexivity | split; assumption]).
+      try contradiction; cbn [fst snd];
+      (split; [reflexivity | split; [first [reflexivity | assumption] | assumption]]).
   - (* OClear *)
     destruct (py_clear_spec I) as (I' & K' & C'). cbn [fst snd].
     split; [reflexivity|]. rewrite Hcur. apply Hstore; congruence.
@@ -339,8 +344,7 @@ Theorem reachable_inv : forall ops n s,
   In (n, s) (maps (fst (run false w0 ops))) -> PyInv s.
 Proof.
   intros ops n s Hin. destruct (history_refines ops) as [_ [_ F]].
-  revert Hin. generalize (amaps (fst (spec_run aw0 ops))). generalize (maps (fst (run false w0 ops))).
-  intros ms ams. intros. induction F as [|p q ms ams R F IH]; [destruct Hin|].
+  induction F as [|p q ms ams R F IH]; [destruct Hin|].
   destruct Hin as [->|Hin]; [apply R|auto].
 Qed.
 
